@@ -9,6 +9,11 @@ HOOK_COMMITS = []
 NOT_APPLICABLE = {("C%02d" % i): "check not built yet in this round; see DESIGN.md section 6 for the plan" for i in range(1, 21)}
 
 PROPS = {
+    "C16": {"level": "exploration",
+            "level_text": "Exhaustive over the boundary grid the property names: all 864^3 triples per comparator and timestamp regime (via full comparison matrices and bitset closure), all id pairs over 21 boundary ids, all streams of length <= 4 over 30 objects for the order checker; seeded subsets for sort/unique. Each compared with a lexicographic reference key using an __int128 id rank.",
+            "level_note": "Trusted: the harness's reference key (type rank, id rank 0 < negatives by |id| < positives, version, timestamp). Objects with mixed set/unset timestamps are outside the property and not generated. INT64_MIN is excluded for objects (std::abs) but included for id_order.",
+            "technique": "exhaustive enumeration over a boundary grid + reference-model oracle + strict-weak-order axioms",
+            "assumptions": ["timestamps all set or all unset within one comparison universe"]},
     "C18": {"level": "exploration",
             "level_text": "Enumeration of every fixed-point latitude and longitude (exhaustive in thorough; seeded stride plus dense windows around all regime boundaries in quick) at every zoom 0..30, compared with a long double evaluation of the canonical tangent formula and with the exact neighbouring coordinate.",
             "level_note": "Trusted: glibc logl/tanl in 80-bit long double as reference, IEEE double semantics of the build (-O2, no fast-math). Tile properties are checked per axis (tile x depends only on longitude, tile y only on latitude) plus the public Tile API on a boundary grid.",
@@ -29,6 +34,8 @@ PROPS = {
 }
 
 UNITS = [
+    {"name": "c16_enum", "props": ["C16"], "kind": "enum", "src": "harness/c16_enum.cpp", "flags": "-O2",
+     "quick": {"min_evaluations": 800000}, "thorough": {"min_evaluations": 1200000, "case_timeout": 900}},
     {"name": "c18_enum", "props": ["C18"], "kind": "enum", "src": "harness/c18_enum.cpp", "flags": "-O2",
      "quick": {"min_evaluations": 2000000}, "thorough": {"min_evaluations": 5000000000, "case_timeout": 900}},
     {"name": "c13_enum", "props": ["C13"], "kind": "enum", "src": "harness/c13_enum.cpp", "flags": "-O2",
